@@ -1596,7 +1596,8 @@ class Mps(MatrixProduct):
             else:
                 tensor = tensordot(tensor, ms, ([0,-1,-2],[0,-1,-2]))
             assert xp.allclose(tensor, tensor.T.conj())
-            rdm[ims] = asnumpy(tensor)
+            # tensor[p, q] = sum conj(psi_p) psi_q = <q|rho|p>: conjugate to return <p|rho|q>
+            rdm[ims] = asnumpy(tensor).conj()
 
         return rdm
     
@@ -1654,7 +1655,7 @@ class Mps(MatrixProduct):
                 rtensor = R_component[jms]
                 res = tensordot(tensor, rtensor,
                         ([2,3],[0,1])).transpose(0,2,1,3)
-                rdm[(ims, jms)] = asnumpy(res.reshape(res.shape[0]*res.shape[1],-1))
+                rdm[(ims, jms)] = asnumpy(res.reshape(res.shape[0]*res.shape[1],-1)).conj()
         return rdm
     
     def calc_edof_rdm(self) -> np.ndarray:
